@@ -158,6 +158,53 @@ func genSliceOps(g *genCtx) {
 			}
 		}
 	}
+	// ---- wide stream: many distinct values (beyond any small-size fast path), every value repeated somewhere ----
+	g.newCase("stratum=wide")
+	for t := 0; t < nRandom/4+50; t++ {
+		r := g.rng
+		alpha := []int{9, 10, 12, 17, 33, 40, 65}[r.intn(7)]
+		mkWide := func() []int {
+			// a prefix enumerating d distinct values in random order, then repeats of random earlier positions
+			d := r.rangeIn(alpha/2, alpha)
+			perm := make([]int, d)
+			for i := range perm {
+				perm[i] = i
+			}
+			for i := d - 1; i > 0; i-- {
+				j := r.intn(i + 1)
+				perm[i], perm[j] = perm[j], perm[i]
+			}
+			xs := append([]int{}, perm...)
+			for i, n := 0, r.rangeIn(1, d); i < n; i++ {
+				xs = append(xs, perm[r.intn(d)])
+			}
+			// sometimes shuffle everything
+			if r.chance(1, 3) {
+				for i := len(xs) - 1; i > 0; i-- {
+					j := r.intn(i + 1)
+					xs[i], xs[j] = xs[j], xs[i]
+				}
+			}
+			return xs
+		}
+		switch r.intn(5) {
+		case 0:
+			g.op("distinct s=%s", encList(mkWide()))
+		case 1:
+			g.op("disjoin ss=%s", encLists([][]int{mkWide()}))
+		default:
+			k := r.rangeIn(1, 3)
+			parts := make([][]int, k)
+			for i := range parts {
+				parts[i] = mkWide()
+			}
+			names := []string{"union", "intersection", "disjoin"}
+			g.op("%s ss=%s", names[r.intn(3)], encLists(parts))
+			if k == 2 {
+				g.op("difference ss=%s", encLists(parts))
+			}
+		}
+	}
 	// ---- malformed / edge stream ----
 	g.newCase("stratum=edge")
 	g.op("remove A=- n=0 i=0 j=0")
